@@ -25,13 +25,23 @@ def from_notes(i):
     f = os.path.join(ROOT, "notes", f"{i}.md")
     if not os.path.exists(f):
         return None
+    text = open(f).read()
     got = {}
-    for line in open(f):
-        m = re.match(r"^[\s*\-`]*(technique|level_claimed\.text|level_note)`?\s*[:=]\s*[`\"“](.*)[`\"”][\s.]*$", line.strip(), re.I)
-        if m and m.group(1).lower() not in got:
-            got[m.group(1).lower()] = m.group(2).strip()
+    for key in ("technique", "level_claimed.text", "level_note"):
+        m = re.search(r"^[\s*\-]*`?" + re.escape(key) + r"`?\s*[:=]\s*([`\"“])", text, re.I | re.M)
+        if not m:
+            continue
+        q = m.group(1); close = "”" if q == "“" else q
+        rest = text[m.end():]
+        # closing delimiter = the delimiter followed by optional punctuation and a line end that is
+        # followed by a blank line, a list item, a heading or the end of the file
+        e = re.search(re.escape(close) + r"[\s.]*\n(?=\s*\n|\s*[*\-#]|\s*$|\Z)|" + re.escape(close) + r"[\s.]*\Z", rest)
+        if not e:
+            continue
+        got[key] = " ".join(rest[: e.start()].split())
     if len(got) == 3:
         return (got["technique"], got["level_claimed.text"], got["level_note"], f"DESIGN.md §4 {i}; notes/{i}.md")
+    print("  (found only", list(got), "in notes for", i, ")")
     return None
 built = set()
 try:
@@ -39,6 +49,8 @@ try:
     built = {l.split()[0] for l in out.splitlines() if l.strip()}
 except Exception:
     pass
+hold = set(extra.get('hold', []))
+built -= hold
 for i in ids:
     if i in built and i not in CHECKS:
         t = from_notes(i)
